@@ -1348,7 +1348,8 @@ class Program:
         # 2. in-crate callee: inline a closed summary when there is one
         lf = self.local_fn(callee)
         if lf is not None and not mut_idx:
-            sub = self.analysis(lf)
+            from .vocab import KEEP_CALL
+            sub = self.analysis(lf) if lf["qual"] not in KEEP_CALL else None
             if sub is not None:
                 rt = sub.ret_term()
                 if rt is not None and self._closed(rt) and not rt.has_tree():
@@ -1393,6 +1394,14 @@ class Program:
             if it is not None and self._closed_or_symbolic(it):
                 an._havoc_mut_args(st, site, t, args, None)
                 return T.call("iter::" + dq.split("::")[-1], (), [it] + [self._stabilise(an, st, a) for a in args[1:]])
+        if dq == "iter::Iterator::next" and mut_idx == [0] and args[0].op == "ref":
+            # `for (i, x) in s.iter().enumerate()`: the items of a known slice, so that i < s.len() is available
+            org = iter_origin(an, an.read(st, arg_lvs[0]))
+            if org is not None:
+                an.write(st, arg_lvs[0], Term("iterstate", org, site))
+                r = Term("iternext", org, site)
+                an.hint(r, "option::Option")
+                return r
         if dq == "iter::Extend::extend" and mut_idx == [0] and args[0].op == "ref" and len(args) == 2:
             # `let mut v = Vec::new() / with_capacity(n); v.extend(it)` builds the same value as `it.collect()`
             cur = an.read(st, arg_lvs[0])
@@ -1714,6 +1723,21 @@ class Program:
         if p.op == "ref":
             return an.read(st, (p.args[0], p.args[1]))
         return T.deref(p)
+
+
+def iter_origin(an, t, depth=0):
+    """enumerate(iter(S)) when t is (a later state of) that iterator"""
+    if depth > 4:
+        return None
+    if t.op == "call" and t.args[0] == "iter::Iterator::enumerate" and t.args[2] and t.args[2][0].op == "call" and t.args[2][0].args[0] == "[T]::iter":
+        return t
+    if t.op == "iterstate":
+        return t.args[0]
+    if t.op == "phi" and t in an.phi_ops:
+        os_ = {iter_origin(an, v, depth + 1) for v in an.phi_ops[t].values()}
+        if len(os_) == 1:
+            return next(iter(os_))
+    return None
 
 
 def build_tree(items):
